@@ -60,6 +60,11 @@ def run(prog, tier):
     borrow(R, P, "OUTPUT", prog, c06.check_writer, floor=1)
     from . import c12
     borrow(R, P, "OUTPUT", prog, c12.check_opb, floor=1)
+    from ._shared import check_iterator_reuse
+    check_iterator_reuse(R, prog, P, ['cnfgen'], 300)
+    # a bipartite graph file with an edge inside one side must end in the reader's ValueError, not in a KeyError of the conversion
+    from . import c16
+    borrow(R, P, "GRAPH", prog, c16.check_bipartite_import, floor=1)
     return R
 
 
